@@ -18,6 +18,7 @@ and the other `NoSolution`); both also for `Range` over any linear order.
 import PubgrubProofs.StoreInvariant
 import PubgrubProofs.RangeAnyOrder
 import PubgrubProofs.Decides
+import PubgrubProofs.Examples
 
 namespace Pubgrub.C02
 open Pubgrub
@@ -156,5 +157,8 @@ example (debug : Bool) :=
     exampleRegistryNat debug
 
 end ExampleNat
+
+/-! Non-vacuity on concrete runs (PubgrubProofs/Examples.lean, evaluated by `decide +kernel`; registered in
+obligations.json so that their axioms are audited too): `Examples.example_B_noSolution_sound`, `Examples.example_D_regA_returns_solution`, `Examples.example_D_regB_returns_noSolution`. -/
 
 end Pubgrub.C02
